@@ -533,7 +533,7 @@ M('C10', 'fetchone-counts-twice', CU,
 M('C10', 'execute-keeps-position', CU,
   "        self._rowcount = len(rows)\n        self._pos = 0\n", "        self._rowcount = len(rows)\n", ('R-RESET', 'Cursor.execute'))
 M('C10', 'rowcount-counts-description', CU,
-  "        self._rowcount = len(rows)", "        self._rowcount = len(description)", ('R-ROWCOUNT', 'Cursor.execute'))
+  "        self._rowcount = len(rows)", "        self._rowcount = len(description)", ('R-ROWCOUNT', 'Cursor.rowcount'))
 M('C10', 'rowcount-initially-zero', CU,
   "        self._rowcount = -1", "        self._rowcount = 0", ('R-ROWCOUNT', 'Cursor.rowcount'))
 M('C10', 'column-len-six', CU,
